@@ -8,6 +8,7 @@ import (
 	"strconv"
 	"strings"
 
+	"github.com/quay/claircore/indexer"
 	"github.com/quay/claircore/verifharness/internal/hx"
 	"github.com/quay/claircore/verifharness/internal/memstore"
 )
@@ -120,6 +121,25 @@ func (s *Session) Run(script []RunIter) string {
 	if strings.Contains(out, "w:j") {
 		s.R.Count("run.jitter-wait")
 	}
+	return out
+}
+
+// State evaluates the state token of a configuration and emits it.
+func (s *Session) State(cfg Config) string {
+	out := s.W.State(cfg)
+	s.op(StateOp(cfg), out, true)
+	s.R.Count(fmt.Sprintf("state.scanners<=%d", (len(cfg)+9)/10*10))
+	return out
+}
+
+// StateOfEcosystems evaluates the token of real ecosystems and emits it (when
+// their scanners' names can be written in a protocol line).
+func (s *Session) StateOfEcosystems(ecos []*indexer.Ecosystem) string {
+	op, out := s.W.StateOfEcosystems(ecos)
+	if op != "" {
+		s.op(op, out, true)
+	}
+	s.R.Count("state.real-ecosystems")
 	return out
 }
 
@@ -371,6 +391,10 @@ func (s *Session) ReplayCorpus(dir string) {
 			case f[0] == "new" && len(f) == 3:
 				if cfg, err := ParseConfig(f[2]); err == nil {
 					s.New(parseNewFaults(f[1]), cfg)
+				}
+			case f[0] == "state" && len(f) == 2:
+				if cfg, err := ParseConfig(f[1]); err == nil {
+					s.State(cfg)
 				}
 			case f[0] == "net" && len(f) == 2:
 				s.Net(f[1] == "down")
